@@ -9,6 +9,7 @@
 package main
 
 import (
+	"encoding/binary"
 	"encoding/json"
 	"flag"
 	"fmt"
@@ -225,7 +226,7 @@ func (u *universe) setsCoq() string {
 		for _, p := range s.ports {
 			ms = append(ms, fmt.Sprintf("EPort %s %d %d", p.addr.String(), p.proto, p.port))
 		}
-		parts = append(parts, fmt.Sprintf("(%d, [%s])", s.id, strings.Join(ms, "; ")))
+		parts = append(parts, fmt.Sprintf("(%d, %s)", s.id, coqListT(ms, "nE")))
 	}
 	return "[" + strings.Join(parts, "; ") + "]"
 }
@@ -237,7 +238,13 @@ type ruleG struct {
 	criteria int
 }
 
-func coqList(xs []string) string { return "[" + strings.Join(xs, "; ") + "]" }
+// typed constants for empty lists / None (Spec.v): an untyped [] or None costs Coq's elaboration milliseconds each
+func coqListT(xs []string, nilName string) string {
+	if len(xs) == 0 {
+		return nilName
+	}
+	return "[" + strings.Join(xs, "; ") + "]"
+}
 
 var pnameCoq = map[string]string{"tcp": "PnTcp", "udp": "PnUdp", "icmp": "PnIcmp", "icmpv6": "PnIcmpv6", "sctp": "PnSctp", "udplite": "PnUdplite"}
 var pnameNum = map[string]int{"tcp": 6, "udp": 17, "icmp": 1, "icmpv6": 58, "sctp": 132, "udplite": 136}
@@ -269,9 +276,9 @@ func (u *universe) genProto(r *rng, want int, allowRareNames bool, forceRare boo
 		if r.pct(20) {
 			spelled = strings.ToUpper(name)
 		}
-		return &proto.Protocol{NumberOrName: &proto.Protocol_Name{Name: spelled}}, fmt.Sprintf("(Some %d)", num), fmt.Sprintf("(Some %s)", pnameCoq[name]), num
+		return &proto.Protocol{NumberOrName: &proto.Protocol_Name{Name: spelled}}, fmt.Sprintf("(sN %d)", num), fmt.Sprintf("(sK %s)", pnameCoq[name]), num
 	}
-	return &proto.Protocol{NumberOrName: &proto.Protocol_Number{Number: int32(num)}}, fmt.Sprintf("(Some %d)", num), "None", num
+	return &proto.Protocol{NumberOrName: &proto.Protocol_Number{Number: int32(num)}}, fmt.Sprintf("(sN %d)", num), "oK", num
 }
 
 func (u *universe) pickCIDRs(r *rng) ([]string, []string) {
@@ -335,19 +342,19 @@ func (u *universe) genRule(r *rng, action string, feat string) ruleG {
 	on := func(p int) bool { return r.pct(p * density / 20) }
 	crit := 0
 
-	ipver := "None"
+	ipver := "oV"
 	switch {
 	case r.pct(20):
 		if u.v6 {
-			pr.IpVersion, ipver = proto.IPVersion_IPV6, "(Some V6)"
+			pr.IpVersion, ipver = proto.IPVersion_IPV6, "(sV V6)"
 		} else {
-			pr.IpVersion, ipver = proto.IPVersion_IPV4, "(Some V4)"
+			pr.IpVersion, ipver = proto.IPVersion_IPV4, "(sV V4)"
 		}
 	case r.pct(6):
 		if u.v6 {
-			pr.IpVersion, ipver = proto.IPVersion_IPV4, "(Some V4)"
+			pr.IpVersion, ipver = proto.IPVersion_IPV4, "(sV V4)"
 		} else {
-			pr.IpVersion, ipver = proto.IPVersion_IPV6, "(Some V6)"
+			pr.IpVersion, ipver = proto.IPVersion_IPV6, "(sV V6)"
 		}
 	}
 
@@ -355,7 +362,7 @@ func (u *universe) genRule(r *rng, action string, feat string) ruleG {
 	wantICMP := on(8)
 	wantNotICMP := on(4)
 	wantPorts := on(30)
-	protoC, pnC, nprotoC, npnC := "None", "None", "None", "None"
+	protoC, pnC, nprotoC, npnC := "oN", "oK", "oN", "oK"
 	wantProto := -1
 	if wantICMP || wantNotICMP {
 		if u.v6 {
@@ -388,73 +395,73 @@ func (u *universe) genRule(r *rng, action string, feat string) ruleG {
 		crit++
 	}
 
-	srcNets, notSrcNets, dstNets, notDstNets := "[]", "[]", "[]", "[]"
+	srcNets, notSrcNets, dstNets, notDstNets := "nC", "nC", "nC", "nC"
 	if on(25) {
 		var cq []string
 		pr.SrcNet, cq = u.pickCIDRs(r)
-		srcNets = coqList(cq)
+		srcNets = coqListT(cq, "nC")
 		crit++
 	}
 	if on(10) {
 		var cq []string
 		pr.NotSrcNet, cq = u.pickCIDRs(r)
-		notSrcNets = coqList(cq)
+		notSrcNets = coqListT(cq, "nC")
 		crit++
 	}
 	if on(25) {
 		var cq []string
 		pr.DstNet, cq = u.pickCIDRs(r)
-		dstNets = coqList(cq)
+		dstNets = coqListT(cq, "nC")
 		crit++
 	}
 	if on(10) {
 		var cq []string
 		pr.NotDstNet, cq = u.pickCIDRs(r)
-		notDstNets = coqList(cq)
+		notDstNets = coqListT(cq, "nC")
 		crit++
 	}
 
-	srcSets, notSrcSets, dstSets, notDstSets, dstIPPort := "[]", "[]", "[]", "[]", "[]"
+	srcSets, notSrcSets, dstSets, notDstSets, dstIPPort := "nN", "nN", "nN", "nN", "nN"
 	if on(15) {
 		var cq []string
 		pr.SrcIpSetIds, cq = u.pickSets(r, false, 2)
-		srcSets = coqList(cq)
+		srcSets = coqListT(cq, "nN")
 		crit++
 	}
 	if on(8) {
 		var cq []string
 		pr.NotSrcIpSetIds, cq = u.pickSets(r, false, 2)
-		notSrcSets = coqList(cq)
+		notSrcSets = coqListT(cq, "nN")
 		crit++
 	}
 	if on(15) {
 		var cq []string
 		pr.DstIpSetIds, cq = u.pickSets(r, false, 1)
-		dstSets = coqList(cq)
+		dstSets = coqListT(cq, "nN")
 		crit++
 	}
 	if on(8) {
 		var cq []string
 		pr.NotDstIpSetIds, cq = u.pickSets(r, false, 2)
-		notDstSets = coqList(cq)
+		notDstSets = coqListT(cq, "nN")
 		crit++
 	}
 	if on(8) {
 		var cq []string
 		pr.DstIpPortSetIds, cq = u.pickSets(r, true, 2)
-		dstIPPort = coqList(cq)
+		dstIPPort = coqListT(cq, "nN")
 		crit++
 	}
 
-	srcPorts, srcNamed, notSrcPorts, notSrcNamed := "[]", "[]", "[]", "[]"
-	dstPorts, dstNamed, notDstPorts, notDstNamed := "[]", "[]", "[]", "[]"
+	srcPorts, srcNamed, notSrcPorts, notSrcNamed := "nP", "nN", "nP", "nN"
+	dstPorts, dstNamed, notDstPorts, notDstNamed := "nP", "nN", "nP", "nN"
 	portField := func(ranges *[]*proto.PortRange, named *[]string, rc, nc *string) {
 		prs, cq := u.pickRanges(r)
-		*ranges, *rc = prs, coqList(cq)
+		*ranges, *rc = prs, coqListT(cq, "nP")
 		if len(prs) == 0 || r.pct(25) {
 			var ncq []string
 			*named, ncq = u.pickSets(r, true, 2)
-			*nc = coqList(ncq)
+			*nc = coqListT(ncq, "nN")
 		}
 		crit++
 	}
@@ -473,15 +480,15 @@ func (u *universe) genRule(r *rng, action string, feat string) ruleG {
 		}
 	}
 
-	icmpC, notIcmpC := "None", "None"
+	icmpC, notIcmpC := "oI", "oI"
 	if wantICMP {
 		ic := u.icmps[r.intn(len(u.icmps))]
 		if r.pct(50) {
 			pr.Icmp = &proto.Rule_IcmpType{IcmpType: int32(ic[0])}
-			icmpC = fmt.Sprintf("(Some (IcmpType %d))", ic[0])
+			icmpC = fmt.Sprintf("(sI (IcmpType %d))", ic[0])
 		} else {
 			pr.Icmp = &proto.Rule_IcmpTypeCode{IcmpTypeCode: &proto.IcmpTypeAndCode{Type: int32(ic[0]), Code: int32(ic[1])}}
-			icmpC = fmt.Sprintf("(Some (IcmpTypeCode %d %d))", ic[0], ic[1])
+			icmpC = fmt.Sprintf("(sI (IcmpTypeCode %d %d))", ic[0], ic[1])
 		}
 		crit++
 	}
@@ -489,10 +496,10 @@ func (u *universe) genRule(r *rng, action string, feat string) ruleG {
 		ic := u.icmps[r.intn(len(u.icmps))]
 		if r.pct(50) {
 			pr.NotIcmp = &proto.Rule_NotIcmpType{NotIcmpType: int32(ic[0])}
-			notIcmpC = fmt.Sprintf("(Some (IcmpType %d))", ic[0])
+			notIcmpC = fmt.Sprintf("(sI (IcmpType %d))", ic[0])
 		} else {
 			pr.NotIcmp = &proto.Rule_NotIcmpTypeCode{NotIcmpTypeCode: &proto.IcmpTypeAndCode{Type: int32(ic[0]), Code: int32(ic[1])}}
-			notIcmpC = fmt.Sprintf("(Some (IcmpTypeCode %d %d))", ic[0], ic[1])
+			notIcmpC = fmt.Sprintf("(sI (IcmpTypeCode %d %d))", ic[0], ic[1])
 		}
 		crit++
 	}
@@ -564,7 +571,7 @@ func (g *caseGen) genTiers(max int) ([]polprog.Tier, string) {
 				ns = "ns1"
 			}
 			t.Policies = append(t.Policies, polprog.Policy{Kind: "NetworkPolicy", Namespace: ns, Name: fmt.Sprintf("pol%d", j), Rules: rs})
-			pcq = append(pcq, coqList(rcq))
+			pcq = append(pcq, coqListT(rcq, "nR"))
 		}
 		end := "EndDeny"
 		switch g.r.intn(5) {
@@ -579,9 +586,9 @@ func (g *caseGen) genTiers(max int) ([]polprog.Tier, string) {
 		g.matchID++
 		t.EndRuleID = g.matchID
 		ts = append(ts, t)
-		cq = append(cq, fmt.Sprintf("(Build_btier %s %s)", coqList(pcq), end))
+		cq = append(cq, fmt.Sprintf("(Build_btier %s %s)", coqListT(pcq, "nPr"), end))
 	}
-	return ts, coqList(cq)
+	return ts, coqListT(cq, "nT")
 }
 
 func (g *caseGen) genProfiles() ([]polprog.Profile, string) {
@@ -594,9 +601,9 @@ func (g *caseGen) genProfiles() ([]polprog.Profile, string) {
 	for i := 0; i < n; i++ {
 		rs, rcq := g.genRules(true)
 		ps = append(ps, polprog.Profile{Kind: "Profile", Name: fmt.Sprintf("prof%d", i), Rules: rs})
-		cq = append(cq, coqList(rcq))
+		cq = append(cq, coqListT(rcq, "nR"))
 	}
-	return ps, coqList(cq)
+	return ps, coqListT(cq, "nPr")
 }
 
 func coqBool(b bool) string {
@@ -633,22 +640,17 @@ func compile(u polprogIDs, rules polprog.Rules, opts []polprog.Option) (res comp
 
 type polprogIDs interface{ GetNoAlloc(string) uint64 }
 
-// One number per sub-program (Bpf.decode_prog): a leading 1, then the 8-byte instruction words as the assembler
-// encoded them, first instruction in the least significant 64 bits.
+// One number per instruction (Bpf.decode_word): the 8-byte word as the assembler encoded it, read little-endian.
 func insnsCoq(progs []asm.Insns) (string, int) {
 	var ps []string
 	total := 0
 	for _, p := range progs {
-		var sb strings.Builder
-		sb.WriteString("0x1")
-		for i := len(p) - 1; i >= 0; i-- {
-			w := p[i].Instruction
-			for k := 7; k >= 0; k-- {
-				fmt.Fprintf(&sb, "%02x", w[k])
-			}
+		var is []string
+		for _, in := range p {
+			is = append(is, fmt.Sprintf("%d", binary.LittleEndian.Uint64(in.Instruction[:])))
 			total++
 		}
-		ps = append(ps, sb.String())
+		ps = append(ps, "["+strings.Join(is, ";")+"]")
 	}
 	return "[" + strings.Join(ps, ";\n") + "]", total
 }
@@ -794,7 +796,7 @@ func main() {
 		}
 		var tags []string
 		rules := polprog.Rules{NoProfileMatchID: 999999}
-		var tiersC, profC, preC, fwdC, normC, hprofC = "[]", "[]", "[]", "[]", "[]", "[]"
+		var tiersC, profC, preC, fwdC, normC, hprofC = "nT", "nPr", "nT", "nT", "nT", "nPr"
 		shape := r.intn(10)
 		switch {
 		case shape < 4: // workload interface (possibly with host-* policy)
